@@ -147,9 +147,11 @@ def run_nnd_pair(cfg, low_memory):
         leaf_array = np.array([[-1]])
     init = pm.EMPTY_GRAPH
     init_tokens = None
+    init_copy = None
     if cfg["init"] == "heap":
-        init = random_heap(rng, n, k, tab)
+        init = random_heap(rng, n, k, tab, fill=cfg.get("fill", 0.7))
         init_tokens = graph_tokens(init)
+        init_copy = (init[0].copy(), init[1].copy(), init[2].copy())
     s0 = state.copy()
     numba.set_num_threads(cfg["threads"])
     st = state.copy()
@@ -164,4 +166,4 @@ def run_nnd_pair(cfg, low_memory):
     if init_tokens:
         line += " | " + init_tokens
     impl = ints_row(ind.ravel()) + " | " + bits_row(dst) + " | " + ints_row(st)
-    return impl, line, (X, tab, ind, dst)
+    return impl, line, (X, tab, ind, dst, init_copy)
